@@ -66,7 +66,10 @@ def cases(tier, seed):
     for j in range(150 if tier == 'quick' else 6000):
         yield dict(kind='pipelined', mid=rnd.randrange(65536), outcome='success',
                    pcid=rnd.choice([1, 3, 5]), variant='mixed', n=rnd.choice([4, 8, 16, 40]),
-                   seed=seed * 100057 + j)
+                   # forward: the handlers of the entity consult another entity before they
+                   # answer (an association requested through the SAME entity object, as a
+                   # forwarding / proxy application does)
+                   forward=j % 4 == 1, seed=seed * 100057 + j)
     for j in range(n):
         yield dict(kind=rnd.choice(kinds), mid=rnd.randrange(65536),
                    outcome=rnd.choice(['success', 'warning', 'failure', 'raise']),
@@ -101,15 +104,30 @@ def _pipelined_case(case):
                      'detail': '%s\ncase %r\nhandler errors %r' % (detail, case,
                                                                    world.handler_errors[:1])})
     try:
+        BACKEND = ('backendhost', 104)
+        fwd = {'n': 0}
+
+        def consult(ae_):
+            with ae_.request_association({'aet': 'BACKEND', 'address': BACKEND[0],
+                                          'port': BACKEND[1]}) as a_:
+                st_ = int(a_.get_scu(rc.VERIFICATION)(4242))
+            fwd['n'] += 1
+            world.sim.bump('probe.handler_used_its_own_entity_as_requestor')
+            return st_
+
         class Srv(applicationentity.AE):
             def on_receive_echo(self, context):
                 if rnd.random() < 0.3:
                     world.sim.sleep(rnd.choice([0.01, 0.06]))
+                if case.get('forward'):
+                    return consult(self)
                 return 0
 
             def on_receive_store(self, context, ds):
                 if rnd.random() < 0.3:
                     world.sim.sleep(rnd.choice([0.01, 0.06]))
+                if case.get('forward') and rnd.random() < 0.5:
+                    return consult(self)
                 return 0
 
             def on_receive_find(self, context, ds):
@@ -130,6 +148,15 @@ def _pipelined_case(case):
         store2.sop_classes = [CT, MR]
         store2.store_in_file = True
         srv.add_scp(sopclass.verification_scp).add_scp(store2).add_scp(sopclass.qr_find_scp)
+        if case.get('forward'):
+            srv.add_scu(sopclass.verification_scu)
+
+            def backend_msg(peer_, m_):
+                peer_.send_message(m_['pcid'], {0x0002: rc.VERIFICATION, 0x0100: 0x8030,
+                                                0x0120: m_['fields'].get(0x0110),
+                                                0x0800: 0x0101, 0x0900: 0})
+            world.serve_peer(BACKEND, lambda sock: peers.ScriptedAcceptor(
+                world.sim, sock, on_message=backend_msg))
         world.serve_ae(srv, ADDR)
         rqs = []
         for k in range(case['n']):
